@@ -20,11 +20,12 @@ def units(tier):
 
 
 def strategy(tier, unit):
-    unitv = st.tuples(S.fl(-1, 1), S.fl(-1, 1), S.fl(-1, 1)).filter(lambda v: sum(x * x for x in v) > 1e-4).map(list)
+    c_ = st.one_of(S.fl(-1, 1), st.sampled_from([0.0, 1.0, -1.0]))
+    unitv = st.tuples(c_, c_, c_).filter(lambda v: sum(x * x for x in v) > 1e-4).map(list)
     tiny = st.tuples(S.logfl(1e-9, 1e-2), st.sampled_from([-1.0, 1.0])).map(lambda t: t[0] * t[1])
     tilt = st.one_of(st.just(0.0), S.fl(-0.5, 0.5), S.fl(-0.5, 0.5), S.fl(-0.5, 0.5), tiny)
     return st.fixed_dictionaries({
-        "d": unitv, "tthd": S.fl(0.5, 150.0), "chi": tilt, "wedge": tilt, "scale": S.logfl(1e-2, 1e2),
+        "d": unitv, "tthd": st.one_of(S.fl(0.5, 150.0), st.sampled_from([0.5, 150.0, 90.0, 60.0, 120.0])), "chi": tilt, "wedge": tilt, "scale": S.logfl(1e-2, 1e2),
         "near_axis": st.one_of(st.none(), st.none(), st.tuples(S.fl(-8, -1), st.sampled_from([1.0, -1.0])).map(list)),
         "cell": S.cells(1.0, 50.0), "hkl": S.hkls(6), "rot": S.rot_specs(1), "wl": S.fl(0.05, 0.2),
         "prev_rel": st.one_of(st.none(), S.logfl(1e-9, 1e-3))})
@@ -85,10 +86,15 @@ def check(case, ctx):
                 continue
             for i in range(len(om)):
                 o = float(om[i])
-                if not (-math.pi < o <= math.pi):
+                # (-pi, pi]: the branch without a 2 pi wrap.  The single point -pi is accepted: arctan2(-0.0, -1) = -pi is
+                # the same rotation as +pi to the last bit, and which of the two is returned depends on the sign of a zero
+                if not (-math.pi <= o <= math.pi):
                     ctx.fail("omega-range/" + name, "%s: omega %r outside (-pi,pi]" % (tag, o))
                 gt = build(o) @ g
-                ctx.near("x-component/" + name, abs(gt[0] - target_x), TOL, "diffraction-condition/" + name,
+                # find_omega obtains omega through arccos: near omega = 0 / pi it is only good to sqrt(2 ulp) ~ 2e-8 rad,
+                # i.e. 2e-8 sin(theta) in the x-component; the other solvers use arctan2 and keep the plain 1e-9
+                tol_x = TOL + (4e-8 * math.sin(th) if name == "find_omega" else 0.0)
+                ctx.near("x-component/" + name, abs(gt[0] - target_x) * (TOL / tol_x), TOL, "diffraction-condition/" + name,
                          "%s: (M(omega).g)_x = %r, required %r; g=%r tth=%r chi=%r wedge=%r" % (tag, gt[0], target_x, g.tolist(), tth, chi, wedge))
                 if eta_a is not None:
                     e = float(eta_a[i])
@@ -130,7 +136,7 @@ def check(case, ctx):
                 ctx.fail("agreement-count/" + n, "%s.%s and find_omega_general disagree on the number of solutions at zero tilt" % (mname, n))
             else:
                 # omega from arccos (find_omega) loses precision near 0/pi: compare through the unit vectors
-                ctx.near("agreement/" + n, dd / max(ref[3], o2[3]), 1e-9, "agreement/" + n, "%s.%s omegas %r differ from find_omega_general %r" % (mname, n, o2[0].tolist(), ref[0].tolist()))
+                ctx.near("agreement/" + n, dd / max(ref[3], o2[3]) / (40.0 if n == "find_omega" else 1.0), 1e-9, "agreement/" + n, "%s.%s omegas %r differ from find_omega_general %r" % (mname, n, o2[0].tolist(), ref[0].tolist()))
     # find_omega_general(g,2th,0,-w) == find_omega_wedge(g,2th,w)
     for mname, m in (("tools", tools), ("laue", laue)):
         gg = g if m is tools else g * case["scale"]
